@@ -248,7 +248,12 @@ def run_shard(bins, sh, tmp, idx, keep_trace=False):
     else:
         p = run(cmd, env=env, timeout=3600)
     if p.returncode != 0:
-        raise Infra("harness %s failed (%d): %s" % (" ".join(cmd), p.returncode, p.stderr[-3000:]))
+        # a test binary built with -race fails its test when the detector has reported a race:
+        # that is an observation (reported below as no_data_race), not a harness failure
+        import glob as _glob
+        raced = any("DATA RACE" in open(rp, errors="replace").read() for rp in _glob.glob(racelog + ".*"))
+        if not (raced and os.path.exists(trace) and os.path.getsize(trace) > 0):
+            raise Infra("harness %s failed (%d): %s" % (" ".join(cmd), p.returncode, (p.stderr or p.stdout)[-3000:]))
     with open(trace) as f:
         q = run([os.path.join(LEAN, ".lake", "build", "bin", "driver"), sh.driver], stdin=f, timeout=3600)
     if q.returncode != 0:
